@@ -634,7 +634,8 @@ def c10_worlds(rng: random.Random) -> list[dict]:
         W(f"dangling_symlink_depth_{depth}", files2, links={"/proj/SCRIPT/gone.exps": "/proj/nowhere/x.exps"},
           repair={"remove": ["/proj/SCRIPT/gone.exps"], **fixed_gone})
     W("missing_in_lookup_paths", {M: 'import "lib/x.exps";\n' + VALID_MAIN, "/proj/unlisted/lib/x.exps": leaf}, lookup=["/proj/macros", "/opt/shared"])
-    W("lookup_import_with_dot_segments", {M: 'import "lib/../x.exps";\n' + VALID_MAIN, "/proj/macros/x.exps": leaf}, lookup=["/proj/macros"])
+    # the pinned tree rejects `..` in a lookup-path import; the property does not ask for that, only for an answer
+    W("lookup_import_with_dot_segments", {M: 'import "lib/../x.exps";\n' + VALID_MAIN, "/proj/macros/x.exps": leaf}, lookup=["/proj/macros"], expect="answer")
     W("import_of_a_directory", {M: 'import "./lib";\n' + VALID_MAIN, "/proj/SCRIPT/lib/x.exps": leaf}, expect="reject-or-oserror")
     for depth in (1, 2):
         files = {M: 'import "./d1.exps";\n' + use, "/proj/SCRIPT/d1.exps": 'import "./d2.exps";\n' + leaf,
